@@ -378,6 +378,22 @@ def build_defaults(tier, seed):
         den = float_denote(ty, dex) if dex is not None else ("f64", 0x7FF8000000000000)
         d.default = (dtxt, den)
         d.derives = ["Debug", "Default", "TryFrom"]
+    for (dtxt, dden, sup) in (("-5 + OFFSET", 5, "const OFFSET: i32 = 10;"), ("-A - B", -7, "const A: i32 = 3; const B: i32 = 4;"), ("-7 >> 1", -4, ""), ("-OFFSET * 2 + 1", -19, "const OFFSET: i32 = 10;"),
+                             ("- 5 + 6", 1, ""), ("-(5 + OFFSET)", -15, "const OFFSET: i32 = 10;")):
+        for hv in (True, False):
+            d = b.new(inner_int("i32"), tags=list(tags))
+            if sup:
+                d.support.append(sup)
+            if hv:
+                d.vals.append(int_bound("greater", "i32", -100, "lit", d))
+            d.default = (dtxt, dden)
+            d.derives = ["Debug", "Default", "TryFrom"]
+    for (dtxt, ex, sup) in (("-0.5 + OFFSET", Fraction(1, 2), "const OFFSET: f64 = 1.0;"), ("-A * 2.0 - 1.0", Fraction(-4), "const A: f64 = 1.5;")):
+        d = b.new(inner_float("f64"), tags=list(tags))
+        d.support.append(sup)
+        d.vals.append(Vld("finite"))
+        d.default = (dtxt, float_denote("f64", ex))
+        d.derives = ["Debug", "Default", "TryFrom"]
     for ty, bound in (("i32", 2), ("u8", 3)):
         d = b.new(inner_int(ty), tags=list(tags) + ["default_seq=0,1,2,3,4"])
         d.support.append("static TICKET: ::core::sync::atomic::AtomicU32 = ::core::sync::atomic::AtomicU32::new(0);\n"
